@@ -408,7 +408,9 @@ impl Driver {
     pub fn flush(&mut self) -> bool {
         #[cfg(compio_verif)]
         compio_log::verif::point("drv.flush", 1, 0);
-        self.notify.reset()
+        // A thread-pool completion whose wake fell between the two `set_awake` calls of
+        // `poll` left no trace in the flag: report the waiting entry itself as well.
+        self.notify.reset() | !self.completed_rx.is_empty()
     }
 
     fn poll_completed(&mut self) -> bool {
